@@ -85,5 +85,8 @@ func (p *Puback) Unpack(r io.Reader) error {
 			return err
 		}
 	}
+	if bufr.Len() != 0 { // bytes left over inside the remaining length
+		return codes.ErrMalformed
+	}
 	return nil
 }
